@@ -67,16 +67,36 @@ class OneStep(Recording):
         return None
 
 
-CLASSES = {'two': TwoStep, 'fail': Failing, 'one': OneStep}
-FULL_TRACE = {'two': ['run', 'second'], 'fail': ['run'], 'one': ['run']}
+class LateFailing(Recording):
+    """Finishes, then fails in a termination hook: the process ends EXCEPTED although its future was already resolved."""
+
+    def run(self) -> Any:
+        RAN.append((self.pid, 'run'))
+        return 1
+
+    def on_finished(self) -> None:
+        super().on_finished()
+        raise ValueError('failing process (late)')
+
+
+CLASSES = {'two': TwoStep, 'fail': Failing, 'one': OneStep, 'late': LateFailing}
+FULL_TRACE = {'two': ['run', 'second'], 'fail': ['run'], 'one': ['run'], 'late': ['run']}
+FAILS = ('fail', 'late')
 
 
 class CountingLoader(loaders.DefaultObjectLoader):
+    """Gives every object an alias the default loader cannot resolve; counts what it is asked to load."""
+
     loads: List[str] = []
 
     def load_object(self, identifier: str) -> Any:
         CountingLoader.loads.append(identifier)
+        if identifier.startswith('alias!'):
+            identifier = identifier[len('alias!'):]
         return super().load_object(identifier)
+
+    def identify_object(self, obj: Any) -> str:
+        return 'alias!' + super().identify_object(obj)
 
 
 class PositionalLocal(kiwipy.LocalCommunicator):
@@ -97,6 +117,8 @@ def alphabet(n_prev: int) -> List[tuple]:
             for nowait in (False, True):
                 ops.append(('launch', cls, persist, nowait))
     ops.append(('launch', 'one', True, False))
+    ops.append(('launch', 'late', False, False))
+    ops.append(('create', 'late', True))
     for tag in ('early', 'late', 'missing'):
         for nowait in (False, True):
             ops.append(('continue', 'H', tag, nowait))
@@ -108,24 +130,28 @@ def alphabet(n_prev: int) -> List[tuple]:
 
 
 class System:
-    def __init__(self, persister_kind: str, loader_kind: str, path: str) -> None:
+    def __init__(self, persister_kind: str, loader_kind: str, path: str, with_context: bool = False) -> None:
         RAN.clear()
         CONSTRUCTED.clear()
         CountingLoader.loads = []
         self.path = path
+        self.with_context = with_context
         self.loop = VLoop(horizon=20000)
         self.loop.install()
         self.dir: Optional[str] = None
+        self.custom = loader_kind == 'custom'
+        self.loader = CountingLoader() if self.custom else None
         if persister_kind == 'memory':
-            self.persister: Any = persistence.InMemoryPersister()
+            # with a custom loader the stored bundles carry identifiers only that loader can resolve
+            self.persister: Any = persistence.InMemoryPersister(loader=self.loader)
         elif persister_kind == 'pickle':
             self.dir = tempfile.mkdtemp(prefix='pvc17_', dir=SHM)
             self.persister = persistence.PicklePersister(self.dir)
         else:
             self.persister = None
-        self.custom = loader_kind == 'custom'
-        self.loader = CountingLoader() if self.custom else None
-        self.launcher = process_comms.ProcessLauncher(loop=self.loop, persister=self.persister, loader=self.loader)
+        load_context = persistence.LoadSaveContext(loop=self.loop) if with_context else None
+        self.launcher = process_comms.ProcessLauncher(loop=self.loop, persister=self.persister, loader=self.loader,
+                                                      load_context=load_context)
         self.comm: Any = None
         self.controller: Any = None
         if path == 'controller':
@@ -207,7 +233,7 @@ class System:
         self.n += 1
         pid = f't{self.n}'
         feats = {'op': op[0], 'persister': type(self.persister).__name__ if self.persister else 'none',
-                 'loader': 'custom' if self.custom else 'default', 'path': self.path}
+                 'loader': 'custom' if self.custom else 'default', 'path': self.path, 'load_context': self.with_context}
 
         def fail(clause: str, detail: Any = None, **extra: Any) -> None:
             bad.append((clause, dict(feats, **extra), detail))
@@ -269,7 +295,7 @@ class System:
                      persist=op[2])
             if op[2]:
                 self.stored[(pid, None)] = ','.join(FULL_TRACE[op[1]])
-                if op[1] == 'fail':
+                if op[1] in FAILS:
                     self.failing.add((pid, None))
         elif kind == 'launch':
             self.pids[-1] = pid
@@ -284,14 +310,14 @@ class System:
                      persist=op[2])
             if op[2]:
                 self.stored[(pid, None)] = ','.join(FULL_TRACE[op[1]])
-                if op[1] == 'fail':
+                if op[1] in FAILS:
                     self.failing.add((pid, None))
             if op[3]:  # nowait
                 if status != 'ok' or value != pid:
                     fail('launch:nowait-reply', {'status': status, 'value': repr(value)[:200]})
                 if [r for r in ran_at_reply[len(ran_before):]] == full and len(full) > 1 and self.path == 'direct':
                     fail('launch:nowait-reply-after-termination', ran_at_reply[len(ran_before):])
-            elif op[1] == 'fail':
+            elif op[1] in FAILS:
                 if status != 'raised' or 'failing process' not in repr(value) + str(value):
                     fail('launch:error-not-reported', {'status': status, 'value': repr(value)[:200]})
             else:
@@ -316,7 +342,7 @@ class System:
                 want = [(key[0], s) for s in remaining.split(',')]
                 if new_ran != want:
                     fail('continue:does-not-resume-the-checkpoint', {'ran': new_ran, 'want': want}, tag=repr(key[1]))
-                cls_name = 'fail' if remaining == 'run' and self._is_failing(key) else None
+                cls_name = 'fail' if self._is_failing(key) else None
                 if nowait:
                     if status != 'ok' or value != key[0]:
                         fail('continue:nowait-reply', {'status': status, 'value': repr(value)[:200]})
@@ -342,7 +368,7 @@ class System:
         return (tuple(sorted((repr(k), v) for k, v in self.stored.items())), tuple(x is not None for x in self.pids))
 
 
-def build(config: Tuple[str, str, str], history: Tuple[tuple, ...]) -> Tuple[System, List[Tuple[str, Dict[str, Any], Any]]]:
+def build(config: Tuple[Any, ...], history: Tuple[tuple, ...]) -> Tuple[System, List[Tuple[str, Dict[str, Any], Any]]]:
     system = System(*config)
     bad: List[Tuple[str, Dict[str, Any], Any]] = []
     for i, op in enumerate(history):
@@ -352,7 +378,7 @@ def build(config: Tuple[str, str, str], history: Tuple[tuple, ...]) -> Tuple[Sys
     return system, bad
 
 
-def bfs(args: Tuple[Tuple[str, str, str], int]) -> Dict[str, Any]:
+def bfs(args: Tuple[Tuple[Any, ...], int]) -> Dict[str, Any]:
     config, max_depth = args
     out: Dict[str, Any] = {'states': 0, 'transitions': 0, 'violations': [], 'nontrivial': 0}
     root = System(*config)
@@ -396,7 +422,8 @@ def bfs(args: Tuple[Tuple[str, str, str], int]) -> Dict[str, Any]:
 
 
 def run_check(tier: str, seed: int, workers: Any) -> Dict[str, Any]:
-    configs = [(p, l, path) for p in ('none', 'memory', 'pickle') for l in ('default', 'custom') for path in ('direct', 'controller')]
+    configs = [(p, l, path, ctx) for p in ('none', 'memory', 'pickle') for l in ('default', 'custom')
+               for path in ('direct', 'controller') for ctx in (False, True) if not (ctx and p == 'none')]
     depth = 2 if tier == 'quick' else 3
     jobs = [(c, depth) for c in configs]
     k = seed % len(jobs)
